@@ -132,6 +132,16 @@ def run(tier, seed):
     for k_, par_, vals in [(1, 0, [0.3]), (1, 1, [0.3]), (1, 0, [-0.85]), (1, 1, [0.9]), (2, 0, [0.2, -0.4]), (2, 1, [0.2, -0.4]),
                            (3, 0, [0.2, 0.1, 0.3]), (3, 1, [0.2, 0.1, 0.3])]:      # smallest sizes, both parities, library defaults
         one(ctx, S, vals, par_, None, None)
+    # ordinary-size targets with a very wide dynamic range (long truncations of smooth series, a subnormal entry): products of
+    # their entries underflow harmlessly inside the Jacobian code
+    for vals, par_ in [([0.5, 1e-300], 0), ([0.3, 0.2, 5e-324], 1), ([0.4, 1e-160, 1e-170], 0), ([0.5, 1e-200, -1e-250, 1e-310], 1)]:
+        ctx.count("wide-dynamic-range")
+        one(ctx, S, vals, par_, None, None, force_form="float64-array")
+    for k_ in ((50, 64) if q else (45, 50, 56, 64, 72, 80)):
+        for par_ in (0, 1):
+            vals = [0.4 * 10.0 ** (-6.0 * i) * (-1) ** i for i in range(k_)]       # reaches the subnormals and exact zeros
+            ctx.count("wide-dynamic-range")
+            one(ctx, S, vals, par_, None, None, force_form="float64-array")
     # inputs on which the unchanged tree once failed (known_findings.json, "fixed"): replayed in every run
     import glob, json, os
     for path in sorted(glob.glob(os.path.join(core.VERIF, "corpus", PROP, "*.json"))):
